@@ -1,0 +1,8 @@
+//go:build verif
+
+// Contracts checked by /verif (gocv). Comment-only; compiled only with -tags verif.
+
+package logicalplan
+
+// A FilteredSelector always wraps a selector (established where it is built, replaceMatchers).
+//@ typeinv *logicalplan.FilteredSelector f: f.VectorSelector != nil
